@@ -262,15 +262,16 @@ Proof.
   destruct (negb (length =? 0)); eexists; reflexivity.
 Qed.
 
-Lemma setitem_int_atomic : forall s index v s' dl e,
+Lemma setitem_int_atomic : forall s index same v s' dl e,
   guard (d_store v) (s_doc s) = true ->
   (forall it, list_get_int (s_items s) index = Ok it ->
      exists P S Q, s_doc s = P ++ S ++ Q /\ S <> [] /\ NoDup (ids (s_doc s)) /\
                    fst it = tid (hd dft S) /\ snd it = tid (last S dft)) ->
-  setitem_int s index v = (s', dl, Err e) -> s' = s /\ dl = [v].
+  setitem_int s index same v = (s', dl, Err e) -> s' = s /\ dl = [v].
 Proof.
-  intros s index v s' dl e Hg Hlay. unfold setitem_int.
+  intros s index same v s' dl e Hg Hlay. unfold setitem_int.
   destruct (list_get_int (s_items s) index) as [it|e0] eqn:Eg; [|intro H; inversion H; auto].
+  destruct same; [intro H; inversion H|].
   unfold detach. destruct (detachable v); [|intro H; inversion H; auto].
   destruct (Hlay it eq_refl) as [P [S [Q [Ed [Hne [Hnd [Hf Hl]]]]]]].
   rewrite Hf, Hl, Ed. rewrite splice_span; [| rewrite <- Ed; exact Hnd | exact Hne | rewrite <- Ed; exact Hg].
@@ -278,6 +279,10 @@ Proof.
   destruct (norm_index (zlen (s_items s)) index); [|discriminate].
   intro H; inversion H.
 Qed.
+
+Lemma setitem_int_refused : forall s index v it, detachable v = false ->
+  list_get_int (s_items s) index = Ok it -> setitem_int s index false v = (s, [v], Err ValueError).
+Proof. intros s index v it Hd Hg. unfold setitem_int. now rewrite Hg, detach_refused. Qed.
 
 Lemma extend_refused : forall ph seps sepsb s vs fr,
   existsb (fun v => negb (detachable v)) vs = true ->
